@@ -8,3 +8,110 @@ Theorem C04_unknown_run_ignored : forall s run t,
   lookupN run (p_runs s) = None -> txn_data s run t = (s, []).
 Proof. intros s run t H. unfold txn_data. rewrite H. reflexivity. Qed.
 Print Assumptions C04_unknown_run_ignored.
+
+From Verif Require Import ProcInv4 ProcInv5 AppKey.
+From Verif Require Lasp LaspProofs.
+
+(* Provenance.  `emitted ops q`: request q is in the output of some step of the history (final-flush requests
+   included); `submitted ops t r`: the history contains a transaction carrying tag t under run id r, processed
+   at a moment when the daemon held run r (and had not stopped).
+   Every request ever emitted for run r carries only tags that were submitted under run id r while r was
+   held: data under an unknown, stale or foreign run id is in no payload. *)
+Theorem C04_payload_tags : forall ops q t,
+  emitted ops q -> In t (tags (rq_items q)) -> submitted ops t (rq_run q).
+Proof. exact payload_tags. Qed.
+Print Assumptions C04_payload_tags.
+
+(* The invariant behind it, for every reachable state: the data held in app harvest a was submitted under
+   a's run id, the data of an outstanding request under the request's run id. *)
+Theorem C04_held_provenance : forall ops a c t,
+  let s := fst (run ops) in
+  a < length (p_ahs s) -> In t (tags (hb s a c)) -> submitted ops t (ah_run (get_ah s a)).
+Proof. exact held_provenance. Qed.
+Print Assumptions C04_held_provenance.
+
+Theorem C04_inflight_provenance : forall ops q t,
+  In q (p_reqs (fst (run ops))) -> In t (tags (rq_items q)) -> submitted ops t (rq_run q).
+Proof. exact inflight_provenance. Qed.
+Print Assumptions C04_inflight_provenance.
+
+(* Isolation between applications: a request carries the key (license, agent identification) of the very
+   application its data was submitted to -- PROVIDED the collector never issues the same run id in two
+   connect replies (`distinct_runs`: the run ids of all ConnOk answers of the history are pairwise distinct). *)
+Theorem C04_payload_owner_partial : forall ops q t,
+  distinct_runs ops -> emitted ops q -> In t (tags (rq_items q)) ->
+  submitted_to ops t (rq_run q) (rq_owner q).
+Proof. exact payload_owner. Qed.
+Print Assumptions C04_payload_owner_partial.
+
+(* Without that hypothesis it is false: when the collector issues run id 7 to a second application, the first
+   application's harvest keeps running under id 7; a failed payload of it is merged into "the harvest of run 7",
+   now the second application's, and is then sent with the second application's key (history `reissued`). *)
+Theorem C04_payload_owner_refuted :
+  exists ops q t, emitted ops q /\ In t (tags (rq_items q)) /\ ~ submitted_to ops t (rq_run q) (rq_owner q).
+Proof. exact payload_owner_refuted. Qed.
+Print Assumptions C04_payload_owner_refuted.
+
+(* Request parameters.  `captured ops e`: e is the context (owner key, collector host, request headers, run id:
+   ctx_of) computed from app harvest a and ITS application object when a tick for a -- or the final flush of a
+   run denoting a -- of the history was processed.  Every harvest / data-usage request ever emitted (by a tick,
+   by the completion of a tick's wait group, by the final flush) carries exactly the parameters of such a
+   context; the requests of the connect hand-shake carry no data. *)
+Theorem C04_request_params : forall ops q,
+  emitted ops q ->
+  (is_handshake q /\ rq_items q = []) \/
+  (is_data q /\ exists e, captured ops e /\
+     rq_owner q = e_owner e /\ rq_host q = e_host e /\ rq_hdr q = e_hdr e /\ rq_run q = e_run e).
+Proof. exact request_params. Qed.
+Print Assumptions C04_request_params.
+
+(* ... where the context of app harvest a is: a's run id, and key / redirect host / request headers of a's own
+   application object. *)
+Theorem C04_context_fields : forall s a g,
+  let e := ctx_of s (get_ah s a) g in
+  let app := get_obj s (ah_app (get_ah s a)) in
+  e_run e = ah_run (get_ah s a) /\ e_owner e = a_key app /\ e_host e = a_collector app /\
+  e_hdr e = match a_reply app with Some r => cr_hdr r | None => 0%N end.
+Proof. exact ctx_of_fields. Qed.
+Print Assumptions C04_context_fields.
+
+(* A preconnect request carries the key of the application object that asked, and opens an attempt with that
+   key and the request's id; the connect request of an attempt carries the attempt's key and id. *)
+Theorem C04_preconnect_params : forall s i q,
+  In (OutReq q) (snd (consider_connect s i)) ->
+  rq_kind q = RPreconnect /\ rq_owner q = a_key (get_obj s i) /\ rq_run q = 0%N /\
+  exists c, p_conns (fst (consider_connect s i)) = p_conns s ++ [c] /\ ca_key c = a_key (get_obj s i) /\ ca_id c = rq_id q.
+Proof. exact preconnect_params. Qed.
+Print Assumptions C04_preconnect_params.
+
+Theorem C04_connect_params : forall s n o q,
+  In (OutReq q) (snd (pre_reply s n o)) ->
+  exists c, nth_error (p_conns s) n = Some c /\ rq_kind q = RConnect /\ rq_owner q = ca_key c /\ rq_id q = ca_id c /\ rq_run q = 0%N.
+Proof. exact connect_params. Qed.
+Print Assumptions C04_connect_params.
+
+(* Application identity (model of AppInfo.Key(), AppKey.v).  Known finding c04-policy-hash-concat: two
+   descriptions that support DIFFERENT sets of security policies and agree on every other field get the same
+   key, for every hash function. *)
+Theorem C04_key_not_injective_refuted :
+  exists i j, same_fields i j /\
+    (exists n, In n (Lasp.supported_names (ai_policies i)) /\ ~ In n (Lasp.supported_names (ai_policies j))) /\
+    forall sha256hex, key sha256hex i = key sha256hex j.
+Proof. exact key_not_injective_refuted. Qed.
+Print Assumptions C04_key_not_injective_refuted.
+
+(* What does hold, for a hash injective on texts: keys are equal iff all other identity fields agree and the
+   TEXTS presented to the hash (sorted supported names joined without separator) agree. *)
+Theorem C04_key_iff_partial : forall sha256hex,
+  (forall a b, sha256hex a = sha256hex b -> a = b) ->
+  forall i j, key sha256hex i = key sha256hex j <->
+              same_fields i j /\ Lasp.hash_preimage (ai_policies i) = Lasp.hash_preimage (ai_policies j).
+Proof. exact key_iff_partial. Qed.
+Print Assumptions C04_key_iff_partial.
+
+(* The run table is consistent in every reachable state: the app harvest a run id denotes carries that run id
+   (and the keys of the table are pairwise distinct, indices valid: ProcInv4.tab_inv). *)
+Theorem C04_run_table_consistent : forall ops r a,
+  lookupN r (p_runs (fst (run ops))) = Some a -> ah_run (get_ah (fst (run ops)) a) = r.
+Proof. intros ops r a. exact (ti_run _ (tab_inv_reachable ops) r a). Qed.
+Print Assumptions C04_run_table_consistent.
